@@ -31,6 +31,7 @@ Inductive op :=
 | OThrow
 | OMakePassive (slot : Z)        (* input[slot].make_passive() *)
 | OMakeActive (slot : Z)         (* input[slot].make_active() *)
+| OInvalidate                    (* out.invalidate(): the producer withdraws its value *)
 | ONop.
 
 (* what user code sees of one input *)
@@ -40,6 +41,9 @@ Record inview := mkIv { v_valid : bool; v_mod : bool; v_val : Z; v_lmt : Z }.
 Definition behaviour := nat -> Z -> Z -> list inview -> sched -> list op.
 
 (* ---- dynamic state ---- *)
+(* n_lmt is the time of the last notification sent to the observers of the output (a write or an
+   invalidation): it is what a bound input reports as its last_modified_time.  The producer's own
+   last_modified_time is n_lmt while the output holds a value and MIN_DT otherwise (final_lines). *)
 Record nst := mkN { n_started : bool; n_sch : sched; n_runs : Z; n_val : option Z; n_lmt : Z;
                      n_evals : Z (* times the graph evaluated the node: lifecycle before_node_evaluation *);
                      n_act : list bool (* per input slot: subscribed (make_active / make_passive at run time) *) }.
@@ -83,7 +87,7 @@ Definition read_input (g : gst) (s : inspec) : inview :=
   let p := node_at (i_src s) g in
   match n_val p with
   | Some v => mkIv true (n_lmt p =? g_now g) v (n_lmt p)
-  | None => mkIv false false 0 (n_lmt p)
+  | None => mkIv false (n_lmt p =? g_now g) 0 (n_lmt p)   (* invalidated in this cycle: the link was notified *)
   end.
 
 Definition read_inputs (c : ncfg) (g : gst) : list inview := map (read_input g) (c_ins c).
@@ -118,6 +122,7 @@ Definition snapshot (code : Z) (i : nat) (now k : Z) (s : sched) (extra : Z) : l
 Definition set_sch (s : sched) (n : nst) : nst := mkN (n_started n) s (n_runs n) (n_val n) (n_lmt n) (n_evals n) (n_act n).
 Definition set_act (a : list bool) (n : nst) : nst := mkN (n_started n) (n_sch n) (n_runs n) (n_val n) (n_lmt n) (n_evals n) a.
 Definition set_out (v now : Z) (n : nst) : nst := mkN (n_started n) (n_sch n) (n_runs n) (Some v) now (n_evals n) (n_act n).
+Definition set_inv (now : Z) (n : nst) : nst := mkN (n_started n) (n_sch n) (n_runs n) None now (n_evals n) (n_act n).
 
 Definition do_op (cfgs : list ncfg) (i : nat) (started : bool) (opi : Z) (o : op) (g : gst) : gst :=
   if negb (g_err g =? 0) then g else
@@ -150,6 +155,18 @@ Definition do_op (cfgs : list ncfg) (i : nat) (started : bool) (opi : Z) (o : op
   | OThrow => set_err 2 g
   | OMakePassive sl => upd_node i (set_act (set_nth (Z.to_nat sl) false (n_act (node_at i g)))) g
   | OMakeActive sl => upd_node i (set_act (set_nth (Z.to_nat sl) true (n_act (node_at i g)))) g
+  | OInvalidate =>
+      (* ts_data/base_view.cpp TSDataMutationView::invalidate: nothing without a current value; otherwise
+         the observers are notified at the mutation time and the value is withdrawn *)
+      if c_out c && started then
+        match n_val (node_at i g) with
+        | None => emit [16; Z.of_nat i; now; 0] g
+        | Some _ =>
+            let g1 := upd_node i (set_inv now) g in
+            let g2 := notify_from cfgs 0 i g1 in
+            emit [16; Z.of_nat i; now; 1] g2
+        end
+      else g
   | ONop => g
   end.
 
@@ -260,7 +277,9 @@ Definition run_sim (cfgs : list ncfg) (beh : behaviour) (start end_ : Z) (fuel :
 
 Fixpoint parse_ins (n : nat) (l : list Z) : list inspec :=
   match n, l with
-  | S k, a :: b :: c :: r => mkIn (Z.to_nat a) (z2b b) (z2b c) :: parse_ins k r
+  (* b: 0 passive by declaration, 1 active, 2 active by declaration + wiring-time passive marker
+        (NodeBuilder::with_passive_inputs), 3 passive + marker: only 1 is subscribed at start *)
+  | S k, a :: b :: c :: r => mkIn (Z.to_nat a) (b =? 1) (z2b c) :: parse_ins k r
   | _, _ => []
   end.
 
@@ -287,7 +306,8 @@ Definition decode_op (code a b : Z) : op :=
   if code =? 7 then ORaw a else
   if code =? 8 then OThrow else
   if code =? 9 then OMakePassive a else
-  if code =? 10 then OMakeActive a else ONop.
+  if code =? 10 then OMakeActive a else
+  if code =? 11 then OInvalidate else ONop.
 
 (* script lines: 3 node k code a b *)
 Definition script_ops (w : wire) (i : nat) (k : Z) : list op :=
@@ -317,12 +337,31 @@ Definition final_lines (cfgs : list ncfg) (g : gst) : wire :=
               if c_out c then
                 let n := node_at i g in
                 [[15; Z.of_nat i; b2z (match n_val n with Some _ => true | None => false end);
-                  match n_val n with Some v => v | None => 0 end; n_lmt n]]
+                  match n_val n with Some v => v | None => 0 end;
+                  match n_val n with Some _ => n_lmt n | None => MIN_DT end]]
               else [])
            (combine (seq 0 (length cfgs)) cfgs).
 
-Definition run_core (w : wire) : wire :=
+(* NodeBuilder::with_passive_inputs refuses markers that would deactivate every scheduled input *)
+Fixpoint act_codes (n : nat) (l : list Z) : list Z :=
+  match n, l with
+  | S k, _ :: b :: _ :: r => b :: act_codes k r
+  | _, _ => []
+  end.
+
+Definition bad_markers (w : wire) : bool :=
+  existsb (fun l => match l with
+                    | 2 :: _ :: _ :: _ :: _ :: nin :: _ :: r =>
+                        let cs := act_codes (Z.to_nat nin) r in
+                        existsb (fun b => (b =? 2) || (b =? 3)) cs &&
+                        existsb (fun b => (b =? 1) || (b =? 2)) cs && negb (existsb (fun b => b =? 1) cs)
+                    | _ => false end) w.
+
+Definition run_core0 (w : wire) : wire :=
   let cfgs := parse_cfgs w in
   let '(s, e) := window w in
   let g := run_sim cfgs (script_beh w) s e (Z.to_nat (e - s) + 1) in
   rev (g_log g) ++ (if g_err g =? 0 then [] else [[19; g_err g]]) ++ final_lines cfgs g.
+
+Definition run_core (w : wire) : wire :=
+  if bad_markers w then [[18; 2]] else run_core0 w.
